@@ -79,45 +79,9 @@ Definition check_explicit (bounds vals : list num) (o : hobs) : list N :=
   | _, _, _, _ => [V_MISMATCH]
   end.
 
-(** ** Exponential histogram *)
-Definition U : Z := -1074.
-Definition P1 : Z := 112.
-Definition P2 : Z := 320.
-
-(** Certified index at scale s >= 0 (retry with more precision before giving up). *)
-Definition index2 (s : nat) (m : Z) : option Z :=
-  match index P1 s m U with Some j => Some j | None => index P2 s m U end.
-
-(** Table of certified scale-20 indexes of the magnitudes of a case. *)
-Fixpoint idx_table (vs : list Z) : option (list (Z * Z)) :=
-  match vs with
-  | [] => Some []
-  | v :: r =>
-      match idx_table r with
-      | None => None
-      | Some t =>
-          if v =? 0 then Some t
-          else match index2 20 (Z.abs v) with Some j => Some ((Z.abs v, j) :: t) | None => None end
-      end
-  end.
-
-Fixpoint lookup (m : Z) (t : list (Z * Z)) : Z :=
-  match t with [] => 0 | (k, j) :: r => if k =? m then j else lookup m r end.
-
-(** The exact positive-scale index: the certified scale-20 index shifted down
-    ([index_exact] + [exact_bin_shift]). *)
-Definition gb_of (t : list (Z * Z)) (s m : Z) : Z := Z.shiftr (lookup m t) (20 - s).
-
-(** Exact bucket of a magnitude at the observed scale, independent of the model. *)
-Definition spec_bin (t : list (Z * Z)) (s m : Z) : Z :=
-  if s <=? 0 then exact_bin s m U else gb_of t s m.
-
-Definition tally_ok (t : list (Z * Z)) (s : Z) (mags : list Z) (off : Z) (counts : list N) : bool :=
-  (nsum counts =? N.of_nat (length mags))%N &&
-  forallb (fun k => let i := off + Z.of_nat k in
-                    N.eqb (nth k counts 0%N) (count_where (fun m => spec_bin t s m =? i) mags))
-          (nat_upto (length counts)).
-
+(** ** Exponential histogram
+    ([U], [index2], [idx_table], [gb_of], [spec_bin], [tally_ok], [expo_table], [placed_b] and the
+    soundness of the judge, [placed_b_sound], are in Proofs.v part F.) *)
 Definition zmin_list (l : list Z) : Z := fold_right Z.min 0 l.
 Definition zmax_list (l : list Z) : Z := fold_right Z.max 0 l.
 Definition span_fits (ms : Z) (bins : list Z) : bool :=
@@ -135,7 +99,7 @@ Definition fits_b (ms : Z) (vz : list Z) : bool :=
 Definition check_expo (ms mxs : Z) (vals : list num) (prev : option Z) (o : eobs) : list N :=
   match nums_fx vals, num_fx (eo_min o), num_fx (eo_max o) with
   | Some vz, Some omin, Some omax =>
-      match (if 0 <? mxs then idx_table vz else Some []) with
+      match expo_table mxs vz with
       | None => [V_MISMATCH]      (* enclosure inconclusive even at 320 bits: cannot judge *)
       | Some t =>
           let ck := sum_exact (vals_int vals) vz in
@@ -146,9 +110,10 @@ Definition check_expo (ms mxs : Z) (vals : list num) (prev : option Z) (o : eobs
           let count_clause :=
             (eo_count o =? eo_zero o + nsum (eo_pos o) + nsum (eo_neg o))%N in
           let placed_clause :=
-            (eo_zero o =? count_where (Z.eqb 0) vz)%N &&
-            tally_ok t (eo_scale o) (posl vz) (eo_pos_off o) (eo_pos o) &&
-            tally_ok t (eo_scale o) (negl vz) (eo_neg_off o) (eo_neg o) in
+            placed_b t vz
+              {| ep_scale := eo_scale o; ep_pos_off := eo_pos_off o; ep_pos := eo_pos o;
+                 ep_neg_off := eo_neg_off o; ep_neg := eo_neg o; ep_zero := eo_zero o;
+                 ep_count := eo_count o; ep_min := omin; ep_max := omax; ep_sum := osum |} in
           let other_clauses :=
             (eo_count o =? N.of_nat (length vz))%N &&
             is_minb vz omin && is_maxb vz omax && (negb ck || (sum_known && (osum =? zsum vz))) &&
